@@ -2,6 +2,7 @@
    The theorems cover the bookkeeping logic only (see DESIGN.md: runtime residue). *)
 From Coq Require Import List NArith ZArith Bool String.
 From NV Require Import Lib.Res Gen.Tftp Tftp.Packet Tftp.Transfer Tftp.TransferProofs Tftp.ServerProofs.
+From NV Require Locks.Export.
 Import ListNotations.
 Open Scope N_scope.
 
@@ -90,3 +91,18 @@ Theorem C07_registry_add_replaces :
   registry_source_facts = true -> forall (adds : list nat) (cl : bool) (st : state), reachable adds cl st -> NoDup (map fst (alive st)) /\ NoDup (map snd (alive st)) /\ (forall (c : nat) (st' : state) (tid s : nat), step st 0 c = Some (st', AStore tid s) -> lookup tid (alive st) = None /\ alive st' = alive st ++ [(tid, s)] /\ s = nadd st /\ (forall (u : nat) (x : sub), u < born st -> nth_error (subs st) u = Some x -> ~ In u (map snd (alive st)) -> sph x = Returned /\ sclosed x = true)) /\ (forall (r : rm) (c : nat) (st' : state) (a : act), lp st = L_rm r -> step st 0 c = Some (st', a) -> match lp st' with | L_rm r' => rm_tgt r' = rm_tgt r | L_store => exists x : sub, r = RmClose (rm_tgt r) /\ nth_error (subs st') (rm_tgt r) = Some x /\ sph x = Returned /\ sclosed x = true | _ => False end).
 Proof. exact Registry.Proofs.add_replaces. Qed.
 Print Assumptions C07_registry_add_replaces.
+
+(* transfers reading one image share its volume under the read side of the file-system lock: a writer excludes them all, and nobody waits for ever
+   (statements in Locks/Export.v; the lock model is the text of the current nobodd/locks.py: per-method digests regenerated on
+   every run) *)
+Theorem C07_lock_model_matches_source : NV.Locks.Export.model_matches_source_statement.
+Proof. exact NV.Locks.Export.model_matches_source_holds. Qed.
+Print Assumptions C07_lock_model_matches_source.
+
+Theorem C07_lock_exclusion : NV.Locks.Export.exclusion_statement.
+Proof. exact NV.Locks.Export.exclusion_holds. Qed.
+Print Assumptions C07_lock_exclusion.
+
+Theorem C07_lock_no_deadlock : NV.Locks.Export.no_deadlock_statement.
+Proof. exact NV.Locks.Export.no_deadlock_holds. Qed.
+Print Assumptions C07_lock_no_deadlock.
